@@ -1141,6 +1141,13 @@ def gen_floor_budget(rng, idx, big=False):
     return L
 
 
+def gen_floor_nestbat(rng, idx, big=False):
+    """corpus-only family (harness/corpus/floorn): nested groups whose batches cross group boundaries
+    (known finding F14); nothing is generated"""
+    raise NotImplementedError
+
+
+FAMILIES['floorn'] = gen_floor_nestbat
 FAMILIES.update({'floorpf': gen_floor_procfirst, 'floorm': gen_floor_maint, 'floorb': gen_floor_batch, 'floorg': gen_floor_groups,
                  'floorp': gen_floor_pools, 'floors': gen_floor_special, 'floorl': gen_floor_late,
                  'floorr': gen_floor_reentrant, 'floori': gen_floor_idle, 'floorq': gen_floor_budget})
